@@ -47,6 +47,11 @@ type duplexHTTPCall struct {
 
 	errMu sync.Mutex
 	err   error
+
+	// readClosed is closed by CloseRead. It tells the goroutine watching the
+	// context that the call is over.
+	readClosed     chan struct{}
+	readClosedOnce sync.Once
 }
 
 func newDuplexHTTPCall(
@@ -72,6 +77,7 @@ func newDuplexHTTPCall(
 		requestBodyWriter: pipeWriter,
 		request:           request,
 		responseReady:     make(chan struct{}),
+		readClosed:        make(chan struct{}),
 	}
 	if err != nil {
 		// We can't construct a request, so we definitely can't send it over the
@@ -167,6 +173,7 @@ func (d *duplexHTTPCall) Read(data []byte) (int, error) {
 
 func (d *duplexHTTPCall) CloseRead() error {
 	d.BlockUntilResponseReady()
+	defer d.readClosedOnce.Do(func() { close(d.readClosed) })
 	if d.response == nil {
 		return nil
 	}
@@ -273,6 +280,21 @@ func (d *duplexHTTPCall) makeRequest() {
 		return
 	}
 	verifYield("makeRequest.afterValidate")
+	if done := d.ctx.Done(); done != nil {
+		// Once it has returned the response, net/http's HTTP/2 transport notices
+		// that the context is done only when it isn't blocked reading the request
+		// body. As long as the request side of the stream is open, a canceled or
+		// expired context would therefore neither unblock reads from the response
+		// body nor reach the server. Closing the request body (which SetError
+		// does) makes the transport abort the stream.
+		go func() {
+			select {
+			case <-done:
+				d.SetError(d.ctx.Err())
+			case <-d.readClosed:
+			}
+		}()
+	}
 	if (d.streamType&StreamTypeBidi) == StreamTypeBidi && response.ProtoMajor < 2 {
 		// If we somehow dialed an HTTP/1.x server, fail with an explicit message
 		// rather than returning a more cryptic error later on.
